@@ -370,13 +370,14 @@ func runC09(c *Ctx) {
 	{
 		sub := NewCtx(p, "C06", c.Tier, c.Config)
 		runC06(sub)
-		c.Rule("R8", "ORD+DEP", "the fan-out consumer placed before exporters and behind receivers/connectors invokes every consumer and aggregates every result (same rule as C06.R4): per-path delivery does not depend on an earlier consumer's outcome", 8)
+		c.Rule("R8", "ORD+DEP", "the fan-out consumer placed before exporters and behind receivers/connectors invokes every consumer and aggregates every result (same rules as C06.R4/R9/R10): per-path delivery does not depend on an earlier consumer's outcome; receivers always emit into the fan-out wrapper and a lone mutating consumer keeps it", 8)
 		for _, o := range sub.Obs {
-			if o.Rule == "C06.R4" && !strings.HasPrefix(o.Construct, "floor:") {
+			if (o.Rule == "C06.R4" || o.Rule == "C06.R10" || o.Rule == "C06.R9") && !strings.HasPrefix(o.Construct, "floor:") {
 				c.add(o.Verdict, o.Construct, o.Pos, o.Detail)
 			}
 		}
 	}
+	runC09Routers(c)
 
 	// ---------- R7 from/to provenance
 	c.Rule("R7", "PROV", "the signal/pipeline taken from the connector's exporter-side uses feeds the first (from) argument and the one from its receiver-side uses the second (to) argument of connectorStability and createConnector", 3)
